@@ -295,12 +295,14 @@ def consBase (nA qA nB qB : UInt8) : UInt8 :=
   else if qB = qA ∧ nA ≠ nB then UInt8.ofNat (Gen.fourBitsBaseDecode.getD (fourCode nA ||| fourCode nB) 0)
   else nA
 
-/-- the column loop; `qM`, `qm` are declared outside the Go loop and keep their last values when the
-two qualities are equal.  Returns bases, qualities, number of matches. -/
+/-- the column loop; `qM`, `qm` are declared outside the Go loop (they are parameters here) and, with
+`C08-consensus-quality-column`, assigned in every column: `qM = qA; qm = qB; if qB > qA { qM = qB; qm = qA }`
+(the unpatched code kept the values of an EARLIER column when the two qualities were equal).
+Returns bases, qualities, number of matches. -/
 def consLoop (adj : UInt8 → UInt8) : UInt8 → UInt8 → Bytes → Bytes → Bytes → Bytes → Bytes × Bytes × Nat
-  | qM, qm, nA :: sA, nB :: sB, qA :: qsA, qB :: qsB =>
-    let qM1 := if qA > qB then qA else if qB > qA then qB else qM
-    let qm1 := if qA > qB then qB else if qB > qA then qA else qm
+  | _, _, nA :: sA, nB :: sB, qA :: qsA, qB :: qsB =>
+    let qM1 := if qB > qA then qB else qA
+    let qm1 := if qB > qA then qA else qB
     let both := qA > 0 ∧ qB > 0
     let q0 : UInt8 := if both ∧ nA ≠ nB then qM1 - adj qm1 else qA + qB
     let q : UInt8 := if q0 > 90 then 90 else q0
